@@ -20,14 +20,18 @@ CONSTANTS NRemotes,     \* remotes 1..NRemotes
           Keys,         \* map keys
           Advances,     \* set of clock advances (ms) the environment may make ({} = the clock is never advanced)
           Burst,        \* TRUE: sends may be issued back to back without letting the agent settle
-          Faults        \* subset of {"drop", "dropread", "unknown", "restart", "kill", "badcmd", "rich"}
+          Faults        \* subset of {"drop", "dropread", "unknown", "restart", "kill", "badcmd", "rich", "demand", "http"}
+                        \* "demand": the demand lane "dem" and the demand-map lane "dmap" are addressed (link / sync /
+                        \*           unlink) and cued by the agent's handlers (cue dem, cuek dmap <k>)
+                        \* "http":   HTTP requests are made to the agent (its HTTP lane "http", unknown lane names)
 
 VARIABLES script, att, gone, nv, restarts, kind
 vars == <<script, att, gone, nv, restarts, kind>>
 
 Remotes == 1..NRemotes
 Live == att \ gone
-Lanes == VLanes \cup MLanes \cup SLanes
+DLanes == IF "demand" \in Faults THEN {"dem", "dmap"} ELSE {}
+Lanes == VLanes \cup MLanes \cup SLanes \cup DLanes
 NS == IF Burst THEN {TRUE, FALSE} ELSE {FALSE}
 
 Init == script = <<>> /\ att = {} /\ gone = {} /\ nv = 1 /\ restarts = 0 /\ kind = "none"
@@ -110,6 +114,39 @@ AgentCmd == /\ UseCmd
                             prog |-> SubSeq(<<a, b, c>>, 1, len), tag |-> nv, nosettle |-> (Burst /\ len = 1)])
                    /\ nv' = nv + 3 /\ UNCHANGED <<att, gone, restarts>>
 
+\* "demand": link / sync / unlink on the stateless lanes only (Proto addresses them as well, among all the lanes)
+DProto == \E r \in Live : \E l \in DLanes : \E op \in {"link", "sync", "unlink"} : \E ns \in NS :
+            /\ Emit([k |-> "send", r |-> r, lane |-> l, op |-> op, nosettle |-> ns])
+            /\ UNCHANGED <<att, gone, nv, restarts>>
+
+\* "demand": a program of one or two instructions for the agent's handlers that cues the stateless lanes and changes
+\* what they compute from (dem computes from "val", dmap from "map") - a small instruction set of its own so that the
+\* number of successors stays small
+DInstr(n) ==
+    {[i |-> "cue", lane |-> "dem"]}
+    \cup {[i |-> "cuek", lane |-> "dmap", key |-> key] : key \in Keys}
+    \cup {[i |-> "set", lane |-> "val", v |-> n]}
+    \cup {[i |-> "upd", lane |-> "map", key |-> key, v |-> n] : key \in Keys}
+    \cup {[i |-> "rem", lane |-> "map", key |-> key] : key \in Keys}
+DemCmd == /\ "demand" \in Faults
+          /\ \E r \in Live : \E len \in 1..2 : \E a \in DInstr(nv) : \E b \in DInstr(nv + 1) : \E ns \in NS :
+                /\ (len = 1 => b = a)
+                /\ Emit([k |-> "send", r |-> r, lane |-> "cmd", op |-> "cmd", m |-> "prog",
+                         prog |-> SubSeq(<<a, b>>, 1, len), tag |-> nv, nosettle |-> ns])
+                /\ nv' = nv + 2 /\ UNCHANGED <<att, gone, restarts>>
+
+\* "http": an HTTP request to the agent.  lane "none" = the URI carries no lane parameter; "val" = a lane that exists
+\* but is not an HTTP lane; "OPTIONS" stands for the methods an HTTP lane does not support; bad = the body of a PUT /
+\* POST is not what the lane's codec decodes.  The request id is the value a good PUT / POST writes.
+Http == /\ "http" \in Faults
+        \* (sequences, not sets: the repetitions are weights)
+        /\ \E mi \in 1..8 : \E li \in 1..6 : \E bi \in 1..3 : \E ns \in NS :
+             LET m == <<"GET", "GET", "HEAD", "PUT", "PUT", "POST", "DELETE", "OPTIONS">>[mi]
+                 l == <<"http", "http", "http", "nolane", "none", "val">>[li]
+                 bad == <<FALSE, FALSE, TRUE>>[bi] IN
+                /\ Emit([k |-> "http", method |-> m, lane |-> l, v |-> nv, bad |-> bad, id |-> nv, nosettle |-> ns])
+                /\ nv' = nv + 1 /\ UNCHANGED <<att, gone, restarts>>
+
 Read == \E r \in Live : \E n \in {0, 1, 2} :
             /\ Emit([k |-> "read", r |-> r, n |-> n])
             /\ UNCHANGED <<att, gone, nv, restarts>>
@@ -133,7 +170,10 @@ Restart == /\ restarts < 2
 \* Two-stage choice so that TLC's uniform choice among successors is uniform among the *kinds*
 \* of step (with multiplicities as weights), not among their many parameterisations.
 Kinds == {"attach", "proto1", "proto2", "proto3", "set1", "set2", "map1", "map2", "map3", "agent1", "agent2",
-          "read1", "read2", "read3", "gone", "quiesce", "restart", "unknown", "adv1", "adv2", "adv3", "badcmd"}
+          "read1", "read2", "read3", "gone", "quiesce", "restart", "unknown", "adv1", "adv2", "adv3", "badcmd",
+          \* (enabled only by the features "demand" / "http": without them no successor is added anywhere, so the scripts
+          \* generated for the other profiles are what they were)
+          "dproto1", "dproto2", "dcmd1", "dcmd2", "dcmd3", "http1", "http2", "http3"}
 
 Can(kd) ==
     CASE kd = "attach" -> att # Remotes
@@ -148,6 +188,9 @@ Can(kd) ==
       [] kd = "unknown" -> Live # {} /\ "unknown" \in Faults
       [] kd \in {"adv1", "adv2", "adv3"} -> Advances # {}
       [] kd = "badcmd" -> Live # {} /\ "badcmd" \in Faults /\ VLanes \cup MLanes # {}
+      [] kd \in {"dproto1", "dproto2"} -> Live # {} /\ DLanes # {}
+      [] kd \in {"dcmd1", "dcmd2", "dcmd3"} -> Live # {} /\ "demand" \in Faults
+      [] kd \in {"http1", "http2", "http3"} -> "http" \in Faults
 
 Do(kd) ==
     CASE kd = "attach" -> Attach
@@ -162,6 +205,9 @@ Do(kd) ==
       [] kd = "unknown" -> Unknown
       [] kd \in {"adv1", "adv2", "adv3"} -> Advance
       [] kd = "badcmd" -> BadCmd
+      [] kd \in {"dproto1", "dproto2"} -> DProto
+      [] kd \in {"dcmd1", "dcmd2", "dcmd3"} -> DemCmd
+      [] kd \in {"http1", "http2", "http3"} -> Http
 
 Pick == /\ kind = "none" /\ Len(script) < MaxLen
         /\ \E kd \in Kinds : Can(kd) /\ kind' = kd
